@@ -56,9 +56,27 @@ class R:
         self.name, self.strat, self.retry, self.minreq, self.interval = name, strat, retry, minreq, interval
         self.bc, self.maxrt, self.thr, self.probe, self.pe, self.active = bc, maxrt, thr, probe, pe, active
 
-    def load(self):
-        return (f"load {self.name} {self.strat} {self.retry} {self.minreq} {self.interval} {self.bc} {self.maxrt} "
+    def load(self, rng=None, op=None):
+        """bulk path (`load` = outlier.LoadRules) or per-resource path (`loadres` = outlier.LoadRuleOfResource)"""
+        if op is None:
+            op = "load" if rng is None or rng.random() < 0.5 else "loadres"
+        return (f"{op} {self.name} {self.strat} {self.retry} {self.minreq} {self.interval} {self.bc} {self.maxrt} "
                 f"{fb(self.thr)} {self.probe} {fb(self.pe)} {self.active}")
+
+    def invalid_loadres(self, rng):
+        """a per-resource load of an invalid rule: reported as an error, the rule in force stays (C13 outlier-invalid-keeps-old)"""
+        k = rng.choice(["pe", "retry", "interval", "thr"])
+        pe, retry, interval, thr = self.pe, self.retry, self.interval, self.thr
+        if k == "pe":
+            pe = rng.choice([1.5, 2.0, math.nextafter(1.0, 2.0)])
+        elif k == "retry":
+            retry = 0
+        elif k == "interval":
+            interval = 0
+        else:
+            thr = -1.0
+        return (f"loadres {self.name} {self.strat} {retry} {self.minreq} {interval} {self.bc} {self.maxrt} "
+                f"{fb(thr)} {self.probe} {fb(pe)} {self.active}")
 
     def change_cb(self, rng):
         """change exactly one field of the breaker part (never to a threshold within Float64Equals of the old one)"""
@@ -121,7 +139,7 @@ def gen_recycle_scenario(rng, cid):
     thr = 1.0 if strat == 2 else 0.5
     ru = R("r", strat, rng.choice([50, 1000, 60000]), rng.choice([0, 1]), rng.choice([1000, 10000]), rng.choice([0, 1, 2]),
            5, thr, rng.choice([1, 1, 2, 0]), rng.choice([0.5, 1.0, 1.0, pick_percent(rng, nn)]), rng.choice([0, 0, 1]))
-    ops = [ru.load()]
+    ops = [ru.load(rng)]
     now = T0
     addrs = [f"n{i}" for i in range(nn)]
     dead = [a for a in addrs if rng.random() < 0.7] or [addrs[0]]
@@ -139,7 +157,7 @@ def gen_recycle_scenario(rng, cid):
     elif kind == "active":
         ru.active = 1 - ru.active
     if kind != "none":
-        ops.append(ru.load())
+        ops.append(ru.load(rng))
     if rng.random() < 0.5:
         now += rng.choice([1, ru.retry, ru.retry + 1])
         ops.append(f"clock {now}")
@@ -184,14 +202,14 @@ def gen_case(rng, cid, known_region=False):
                 if int(nn * p) > math.floor(nn * Fraction(p)):      # binary64 product rounds up past the exact floor
                     cands.append(p)
         ru.pe = rng.choice(cands) if cands else 1 / 3
-    ops = [ru.load()]
+    ops = [ru.load(rng)]
     # sometimes a second resource with its own rule over the same addresses (per-resource isolation)
     rules = {"r": ru}
     if not known_region and rng.random() < 0.12:
         s2 = rng.choice([1, 2])
         rules["s"] = R("s", s2, rng.choice([1, 50, 1000]), 0, 1000, rng.choice([0, 2]), 0, 1.0, rng.choice([0, 1, 2]),
                        pick_percent(rng, nn), rng.choice([0, 1]))
-        ops.append(rules["s"].load())
+        ops.append(rules["s"].load(rng))
     addrs = [f"n{i}" for i in range(nn)]
     # failure profile per node: probability of a bad completion
     prof = {}
@@ -231,15 +249,24 @@ def gen_case(rng, cid, known_region=False):
         elif r < 0.99 and not known_region:
             # reload in the middle of the history
             k = rng.random()
-            if k < 0.15:
+            if k < 0.08:
+                ops.append(cur.invalid_loadres(rng))    # rejected: the old rule stays in force
+                continue
+            if k < 0.16:
+                ops.append(f"clearres {res}")           # rule and node breakers dropped, then loaded again
+                if rng.random() < 0.5:
+                    ops.append(f"probe {res}")
+                if rng.random() < 0.5:
+                    cur.pe = pick_percent(rng, nn)
+            elif k < 0.28:
                 pass                                    # identical
-            elif k < 0.35:
+            elif k < 0.48:
                 cur.active = 1 - cur.active
-            elif k < 0.55:
-                cur.pe = pick_percent(rng, nn)
+            elif k < 0.68:
+                cur.pe = rng.choice([pick_percent(rng, nn), 0.0, 0.25, 1.0])
             else:
                 cur.change_cb(rng)                      # one breaker field: every node breaker is rebuilt Closed
-            ops.append(cur.load())
+            ops.append(cur.load(rng))
         else:
             ops.append(f"probe {res}")
     for name in names:
@@ -274,7 +301,7 @@ def densify(ops, rng):
     out = []
     for o in ops:
         out.append(o)
-        if rng.random() < 0.4 and o.split()[0] in ("call", "probe", "recycle", "retry", "load"):
+        if rng.random() < 0.4 and o.split()[0] in ("call", "probe", "recycle", "retry", "load", "loadres"):
             out.append("probe " + o.split()[1])
     return out
 
@@ -288,14 +315,23 @@ def nontrivial(case, impl):
     loads = {}
     for l in impl:
         op, _, r = l.partition(" => ")
-        if op.startswith("load "):
+        if op.startswith("load ") or op.startswith("loadres "):
             t = op.split()
+            DIST["loads via LoadRuleOfResource"] += t[0] == "loadres"
+            DIST["loads via LoadRuleOfResource rejected (invalid)"] += r == "err"
+            if r != "ok":
+                continue
             old = loads.get(t[1])
             if old is not None:
                 DIST["reloads"] += 1
                 DIST["reloads changing the breaker part"] += old[2:10] != t[2:10]
-                DIST["reloads identical"] += old == t
+                DIST["reloads identical"] += old[1:] == t[1:]
+                DIST["reloads changing only percent/active"] += (old[2:10] == t[2:10] and old[10:] != t[10:])
+                DIST["reloads changing only percent/active, per-resource path"] += (old[2:10] == t[2:10] and old[10:] != t[10:] and t[0] == "loadres")
             loads[t[1]] = t
+        if op.startswith("clearres "):
+            DIST["clearres ops"] += 1
+            loads.pop(op.split()[1], None)
         if op.startswith("recycle "):
             DIST["recycle ops"] += 1
         if not (op.startswith("call ") or op.startswith("probe ")):
